@@ -372,8 +372,16 @@ impl<T: Read + Seek> Iterator for PointCloudReaderSimple<'_, T> {
             }
         }
 
-        // Read raw point values as simple point, add to buffer
+        // Read raw point values as simple point, add to buffer.
+        // The last bytes of the byte streams can contain more values than the point cloud has
+        // points. These are just padding and must not be converted, they can look like invalid data.
+        let remaining = self.pc.records - self.read;
         let available = self.queue_reader.available();
+        let available = if (available as u64) > remaining {
+            remaining as usize
+        } else {
+            available
+        };
         self.buffer.reserve(available);
         for _ in 0..available {
             let p = match self.pop_point() {
